@@ -236,7 +236,9 @@ def run(ctx):
             continue
         if re.match(r"E\d+", why):
             data = dict(kind="property-violated", what="an expansion the derive accepted does not compile", definition=ident, rustc=why, seed=ctx.seed)
-            if "Default` is not satisfied" in why or "Default` is not implemented" in why or "Serialize` is not" in why or "Deserialize" in why:
+            if why.startswith("E0392"):
+                pass     # unused type parameter: rustc rejects the item's own declaration before any derive runs
+            elif "Default` is not satisfied" in why or "Default` is not implemented" in why or "Serialize` is not" in why or "Deserialize" in why:
                 pass     # serde's own requirements on generated items (skip needs Default): generator artefact, not the ts-rs derive
             else:
                 viol.append(data)
